@@ -9,6 +9,11 @@ mod service;
 mod storage;
 mod verify;
 
+// Verification harness (only with `--features verif`); lives outside the repository.
+#[cfg(feature = "verif")]
+#[path = "/verif/harness/mod.rs"]
+mod verif_harness;
+
 use ckb_types::{
     core::ScriptHashType,
     packed::{CellOutput, Script},
